@@ -37,10 +37,9 @@ structure CState where
   maxev : Nat
   tx : Nat
   c0os : Bool
-  dead : Bool
 
 def CState.init (maxev tx : Nat) (c0os : Bool) : CState :=
-  ⟨Array.replicate 8 {}, #[], maxev, max tx 16, c0os, false⟩
+  ⟨Array.replicate 8 {}, #[], maxev, max tx 16, c0os⟩
 
 def tyIndex : String → Option Nat
   | "bi" => some 0 | "db" => some 1 | "bo" => some 2 | "ct" => some 3
@@ -167,20 +166,21 @@ def writeEvent (cap : Nat) (w : EvW) (e : CEv) (var : Nat) : EvW :=
     | some w' => w'
     | none => w
 
-/-- one static object; `none` = the master-side iterator panics (D2: octet string at 65535) -/
-def staticLine (t idx : Nat) (p : CPoint) (reqVar : Option Nat) : Option String :=
+/-- one static object (octet strings are delivered at every index, 65535 included: the master-side
+    `RangedBytesIterator` no longer overflows there — former defect D2) -/
+def staticLine (t idx : Nat) (p : CPoint) (reqVar : Option Nat) : String :=
   if t == 7 then
-    if idx == 65535 then none else some (mLine 7 idx 110 p.octets.length false (toHex p.octets) 0 none)
+    mLine 7 idx 110 p.octets.length false (toHex p.octets) 0 none
   else
     let v := promote (mtyOf t) (reqVar.getD p.svar) p.cur
     if t ≤ 2 && v == 1 then
       let d := fromPacked p.cur.val
-      some (mLine t idx (sGroup t) 1 false (valStr t d.val) d.flags d.time)
+      mLine t idx (sGroup t) 1 false (valStr t d.val) d.flags d.time
     else match lookupTo (mtyOf t) (sGroup t) v, lookupFrom (mtyOf t) (sGroup t) v with
       | some r, some f =>
         let d := fromVariation f (toVariation r p.cur p.r32)
-        some (mLine t idx (sGroup t) v (r.flags != .absent) (valStr t d.val) d.flags d.time)
-      | _, _ => some s!"no-conversion {tyName t} g{sGroup t}v{v}"
+        mLine t idx (sGroup t) v (r.flags != .absent) (valStr t d.val) d.flags d.time
+      | _, _ => s!"no-conversion {tyName t} g{sGroup t}v{v}"
 
 def doRead (s : CState) (specs : List Spec) : CState × List String :=
   -- (1) selection, header by header
@@ -211,15 +211,10 @@ def doRead (s : CState) (specs : List Spec) : CState × List String :=
     | none => w
   let keep := evs.filter fun e => e.sel.isNone
   -- (3) static ranges in request order
-  let (out, dead) := statics.foldl (init := (w.out, false)) fun (out, dead) (t, var, a, b) =>
-    if dead then (out, dead) else
-    (s.pts.getD t {}).foldl (init := (out, dead)) fun (out, dead) idx p =>
-      if dead || idx < a || idx > b then (out, dead) else
-      match staticLine t idx p var with
-      | some l => (out.push l, false)
-      | none => (out.push "panic", true)
-  if dead then ({ s with evs := keep, dead := true }, out.toList ++ ["ok"])
-  else ({ s with evs := keep }, out.toList ++ ["iin2 0", "ok"])
+  let out := statics.foldl (init := w.out) fun out (t, var, a, b) =>
+    (s.pts.getD t {}).foldl (init := out) fun out idx p =>
+      if idx < a || idx > b then out else out.push (staticLine t idx p var)
+  ({ s with evs := keep }, out.toList ++ ["iin2 0", "ok"])
 
 def convertStep (s : CState) (line : String) : CState × List String :=
   let ws := words line
@@ -230,7 +225,6 @@ def convertStep (s : CState) (line : String) : CState × List String :=
     | some m, some t => (CState.init m t (c0 == "1"), ["ok"])
     | _, _ => (s, ["bad-op"])
   | _ =>
-  if s.dead then (s, ["dead", "ok"]) else
   match ws with
   | ["add", ty, idx, cls, sv, ev] =>
     match tyIndex ty, idx.toNat?, cls.toNat?, sv.toNat?, ev.toNat? with
